@@ -252,6 +252,27 @@ def xyz_read(part, z):
             if [int(v) for v in m.atomic_numbers] != [z, 1] or np.abs(np.asarray(m.positions) - np.array([[0.5, -1.25, 2.0], [1.5, 1.0, -3.0]])).max() > 0:
                 part.fail("xyz-read:%s:%s" % (sname, sepname), "XYZ with symbol %r (%s, %s) read as %s" % (spelling, sname, sepname, list(m.atomic_numbers)), case)
             part.outcome(("xyzread", sname, sepname))
+    # the comment line is free text: empty, blank, or looking like a count / an atom record - it never is an atom and never hides one
+    for comment, cname in (("", "empty"), ("   ", "blanks"), ("\t", "tab"), ("0 1", "charge-multiplicity"), ("2", "number"), ("H 0.0 0.0 0.0", "atom-like")):
+        for via in ("text", "molecule"):
+            part.ev()
+            part.tr()
+            if via == "text":
+                text = "\n".join(["2", comment, "%s 0.5 -1.25 2.0" % sym, "H 1.5 1.0 -3.0"]) + "\n"
+            else:
+                from chmpy.core.element import Element
+
+                m0 = Molecule([Element.from_atomic_number(z), Element.from_atomic_number(1)], np.array([[0.5, -1.25, 2.0], [1.5, 1.0, -3.0]]), comment=comment)
+                text = m0.to_xyz_string()
+            case = {"kind": "xyzread", "z": z, "text": text}
+            try:
+                m = Molecule.from_xyz_string(text)
+            except Exception as e:
+                part.fail("xyz-comment-raise:%s:%s" % (cname, via), "reading XYZ with the comment line %r (%s) raised %s" % (comment, via, type(e).__name__), case)
+                continue
+            if [int(v) for v in m.atomic_numbers] != [z, 1] or np.abs(np.asarray(m.positions) - np.array([[0.5, -1.25, 2.0], [1.5, 1.0, -3.0]])).max() > 1e-12:
+                part.fail("xyz-comment:%s:%s" % (cname, via), "XYZ with the comment line %r (%s) read as %s" % (comment, via, list(m.atomic_numbers)), case)
+            part.outcome(("xyzcomment", cname, via))
     part.state(("xyzread", z))
 
 
@@ -339,7 +360,7 @@ def run(ctx):
                 for how in ("none", "translate", "translated", "assign"):
                     jobs.append(("prov", fmt, n, prov, how))
     ctx.rule = ("{xyz, sdf} x atom counts %s x 3 element offsets (lists cycle through all 103 elements) x coordinate kinds %s x bonded/unbonded x "
-                "string/file routes%s; molecules read from xyz/sdf (with and without the kept source text) and then moved in 3 ways before being written; XYZ reading of all 103 symbols x 3 letter cases x 4 separator styles; SDF texts with 1-3 records from the "
+                "string/file routes%s; molecules read from xyz/sdf (with and without the kept source text) and then moved in 3 ways before being written; XYZ reading of all 103 symbols x 3 letter cases x 4 separator styles and x 6 comment lines (empty, blank, number-like, atom-like) x {hand-written, written by the library}; SDF texts with 1-3 records from the "
                 "writer and from the column reference; every SDF text checked against the V2000 column layout; states = distinct molecule "
                 "configurations" % (COUNTS, COORD_KINDS, "" if ctx.thorough else " (non-default offsets/file route under a one-deviation bound)"))
     ctx.bounds = {"counts": COUNTS, "coordinate_kinds": COORD_KINDS, "jobs": len(jobs)}
